@@ -32,7 +32,7 @@ def site_scenario(case):
             async def handle_request(self, request):
                 await asyncio.sleep(1000)
         proto, ft, s = sessions.attach(S, kind='server' if case['site'] == 'handler' else 'client', transport=case['transport'],
-                                       hwm=5 if case['site'] == 'send_blocked' else None)
+                                       hwm=5 if case['site'] in ('send_blocked', 'send_request_blocked') else None)
         if case['site'] == 'close_waiting':
             def close():
                 ft.closing = True            # a graceful close that does not complete (unsent data, silent peer)
@@ -48,6 +48,9 @@ def site_scenario(case):
                     b.add_request('m', [1])
                     b.add_request('m', [2])
                 return b.results
+            if site == 'send_request_blocked':
+                await s.send_notification('n', ['x' * 50])      # fills the buffer: the transport pauses writing
+                return await s.send_request('m', [1])           # ... the request waits to be WRITTEN
             if site == 'send_blocked':
                 await s.send_notification('n', ['x' * 50])      # fills the buffer: the transport pauses writing
                 return await s.send_notification('n', [2])      # ... this one waits for room
@@ -279,7 +282,7 @@ class C12(Prop):
                             'ending cancelled after an external cancel')
         # the library's own uses of the constructs (session.py, transports)
         ns = 0
-        for site in ('send_request', 'send_batch', 'send_blocked', 'close_waiting', 'handler'):
+        for site in ('send_request', 'send_batch', 'send_blocked', 'send_request_blocked', 'close_waiting', 'handler'):
             for wrap in ('none', 'outer', 'handled_inner') if site != 'handler' else ('none', 'lowered'):
                 for as_member in (False, True) if site != 'handler' else (False,):
                     for cancel_at in (0.05, 1.0, 7.5):
